@@ -481,7 +481,9 @@ def check_slot_return(ck: Checker, rid: str, s: Srv):
     # (a) the pop is unconditional: every path from the dequeue to the next dequeue that is not the
     #     sentinel path passes through the pop.  Sentinel path = leaves the loop.
     removals = _removals(cfg, sc, s)
-    ck.need(removals, f'{s.gather.key}: the ledger entry is never removed')
+    if not removals:
+        ck.ob(rid, s.gather, popn.ast, False, 'the gather loop never removes the ledger entry of an answered request: every request leaks its slot and the server fills up for good')
+        return
     # a failed lookup (unknown id) has nothing to remove
     p = path_avoiding(cfg, cfg.normal_succ(getn.id), {loop.id}, avoid=removals, edge_ok=lambda e: not (e.src == popn.id and e.kind == 'exc'))
     ck.ob(rid, s.gather, popn.ast, p is None, 'every message that is not the sentinel removes its ledger entry, whatever the state of the future' if p is None else 'a message can be consumed without removing its ledger entry (slot leaked for ever)', path=fmt_path(cfg, [getn.id] + p) if p else '')
